@@ -20,7 +20,8 @@ import time
 
 HERE = os.path.dirname(os.path.abspath(__file__))
 VERIF = os.path.dirname(HERE)
-PY = os.path.join(VERIF, ".venv", "bin", "python")
+PY = os.path.join(os.environ.get("VERIF_VENV") or os.path.join(VERIF, ".venv"), "bin", "python")
+REPO = os.environ.get("VERIF_REPO", "/repo").rstrip("/") + "/"
 sys.path.insert(0, HERE)
 
 NCPU = int(os.environ.get("VERIF_JOBS", "0")) or max(1, min(16, os.cpu_count() or 1))
@@ -100,8 +101,8 @@ if __name__ == "__main__":
     def _prof(frame, event, arg):
         if event == "call":
             fn = frame.f_code.co_filename
-            if fn.startswith("/repo/"):
-                _seen.add(fn[6:] + ":" + frame.f_code.co_qualname)
+            if fn.startswith(%r):
+                _seen.add(fn[%d:] + ":" + frame.f_code.co_qualname)
     _s.setprofile(_prof)
     try:
         {call}
@@ -219,7 +220,7 @@ def decide(h, workdir, prop):
     if reached and rr.get("call") and os.environ.get("VERIF_NOFUNCS") != "1":
         pp = os.path.join(workdir, "prof_" + safe(h.hid) + ".py")
         with open(pp, "w") as f:
-            f.write(src + PROFILE_TAIL.format(call=rr["call"]))
+            f.write(src + (PROFILE_TAIL % (REPO, len(REPO))).format(call=rr["call"]))
         try:
             q = subprocess.run([PY, pp], capture_output=True, text=True, timeout=60, env=plain_env())
             m = re.search(r"FUNCS: (.*)", q.stdout)
